@@ -34,7 +34,7 @@ SHRINK = ["edits"]
 def plan(tier):
     if tier == "thorough":
         return {"cases": 3000, "timeout": 600, "wall_budget": 1700, "recheck": 6, "nproc": 6}
-    return {"cases": 40, "timeout": 400, "wall_budget": 70, "recheck": 2, "nproc": 6}
+    return {"cases": 80, "timeout": 400, "wall_budget": 120, "recheck": 2, "nproc": 6}
 
 def gen_case(rng, tier, index):
     model = projgen.gen_valid_project(rng)
